@@ -14,6 +14,23 @@ use crate::{
     uni::{SynSpec, Table, Ty, DER_BASE, SYN_SLOTS},
 };
 
+/// Deeper bounds in the thorough tier (set once per process from `--tier`; the quick tier's
+/// draws are unaffected, so its fixed run set never changes).
+static THOROUGH: std::sync::atomic::AtomicBool = std::sync::atomic::AtomicBool::new(false);
+
+pub fn set_thorough(on: bool) {
+    THOROUGH.store(on, std::sync::atomic::Ordering::Relaxed);
+}
+
+/// `quick` in the quick tier, `deep` in the thorough tier.
+fn bound(quick: usize, deep: usize) -> usize {
+    if THOROUGH.load(std::sync::atomic::Ordering::Relaxed) {
+        deep
+    } else {
+        quick
+    }
+}
+
 /// Swarm switches of one run.
 #[derive(Clone, Debug, Default)]
 pub struct Swarm {
@@ -605,12 +622,12 @@ pub fn draw_admissible(seed: u64, f: impl Fn(u64) -> Plan) -> Plan {
 
 /// C06: single-threaded histories over entry points, spellings, stale trees, several processes.
 pub fn gen_c06(seed: u64) -> Plan {
-    let mut b = draw_base(seed, |_| {}, (2, 7));
+    let mut b = draw_base(seed, |_| {}, (2, bound(7, 10)));
     let default_abs = model::norm(&b.cwd, b.env_dir.as_deref().unwrap_or("./bindings")).unwrap();
     let n_phases = if b.rng.pct(25) { 2 } else { 1 };
     let mut phases = vec![];
     for _ in 0..n_phases {
-        let n_ops = b.rng.range(1, 8);
+        let n_ops = b.rng.range(1, bound(8, 12));
         let mut ops = vec![];
         for _ in 0..n_ops {
             let ty = *b.rng.pick(&b.uni.pool);
@@ -656,13 +673,13 @@ pub fn gen_c05(seed: u64) -> Plan {
             sw.shared_files = true;
             sw.custom_dirs = false;
         },
-        (3, 8),
+        (3, bound(8, 11)),
     );
     let default_abs = model::norm(&b.cwd, b.env_dir.as_deref().unwrap_or("./bindings")).unwrap();
-    let nthreads = b.rng.range(1, 4);
+    let nthreads = b.rng.range(1, bound(4, 8));
     let mut threads = vec![];
     for _ in 0..nthreads {
-        let n_ops = b.rng.range(1, 5);
+        let n_ops = b.rng.range(1, bound(5, 7));
         let mut ops = vec![];
         for _ in 0..n_ops {
             let ty = *b.rng.pick(&b.uni.pool);
@@ -712,7 +729,7 @@ pub fn gen_c13(seed: u64) -> Plan {
                 ops.insert(at, Op::ToString { ty: *t });
             }
         }
-        let workers = b.rng.range(1, 6);
+        let workers = b.rng.range(1, bound(6, 8));
         let chooser = draw_chooser(&mut b.rng, sched_seed(seed, pi), workers);
         phases.push(Phase {
             fresh_process: true,
@@ -737,13 +754,13 @@ pub fn gen_files(seed: u64, property: &str) -> Plan {
                 sw.escapes = true;
             }
         },
-        (3, 9),
+        (3, bound(9, 12)),
     );
     let default_abs = model::norm(&b.cwd, b.env_dir.as_deref().unwrap_or("./bindings")).unwrap();
     let nthreads = if b.rng.pct(25) { 2 } else { 1 };
     let mut threads = vec![];
     for _ in 0..nthreads {
-        let n_ops = b.rng.range(1, 4);
+        let n_ops = b.rng.range(1, bound(4, 6));
         let mut ops = vec![];
         for _ in 0..n_ops {
             let ty = *b.rng.pick(&b.uni.pool);
